@@ -189,7 +189,7 @@ static void check_i(const char *acc, struct exp_i want, i128 got, int got_errno)
 	}
 	else if (want.err != E_ANY && want.err != 0 && got_errno != want.err)
 		mc_violation("wrong-errno", "%s: errno %d, expected %d", acc, got_errno, want.err);
-	else if (want.err == 0 && (got_errno == ERANGE || got_errno == EINVAL))
+	else if (want.err == 0 && !mc_errno_pre && (got_errno == ERANGE || got_errno == EINVAL))
 		mc_violation("spurious-errno", "%s: errno %d on an exact conversion", acc, got_errno);
 	mc_outcome(mc_hash(&got, sizeof got, (uint64_t)got_errno + mc_hash_str(acc)));
 }
@@ -325,27 +325,27 @@ static void check_accessors(const struct nodeval *n, int as_uint)
 	}
 	}
 	MC_COUNT("calls", 5);
-	errno = 0;
+	errno = mc_errno_pre;
 	mc_phase = "get_int";
 	int32_t g32 = json_object_get_int(o);
 	check_i("get_int", e32, g32, errno);
-	errno = 0;
+	errno = mc_errno_pre;
 	mc_phase = "get_int64";
 	int64_t g64 = json_object_get_int64(o);
 	check_i("get_int64", e64, g64, errno);
-	errno = 0;
+	errno = mc_errno_pre;
 	mc_phase = "get_uint64";
 	uint64_t gu = json_object_get_uint64(o);
 	check_i("get_uint64", eu, (i128)gu, errno);
 	mc_phase = "get_double";
-	errno = 0;
+	errno = mc_errno_pre;
 	double gd = json_object_get_double(o);
 	int gd_errno = errno;
 	if (!((gd != gd && ed != ed) || (gd == ed && signbit(gd) == signbit(ed))))
 		mc_violation("wrong-value", "get_double returned %.17g, expected %.17g", gd, ed);
 	else if (ed_err == EINVAL && gd_errno != EINVAL)
 		mc_violation("wrong-errno", "get_double: errno %d, expected EINVAL", gd_errno);
-	else if ((n->k == N_DBL || n->k == N_INT || n->k == N_BOOL) && gd_errno != 0)
+	else if ((n->k == N_DBL || n->k == N_INT || n->k == N_BOOL) && !mc_errno_pre && gd_errno != 0)
 		mc_violation("spurious-errno", "get_double: errno %d on an exact conversion", gd_errno);
 	int gb = json_object_get_boolean(o);
 	if (!!gb != !!eb)
@@ -567,7 +567,7 @@ static void check_int_node(struct json_object *o, i128 want, const char *when)
 	const char *txt = json_object_to_json_string_ext(o, JSON_C_TO_STRING_PLAIN);
 	if (!txt || strcmp(txt, a))
 		mc_violation("mutation-wrong-value", "%s: node serializes as %s, exact result is %s", when, txt ? txt : "(null)", a);
-	errno = 0;
+	errno = mc_errno_pre;
 	int64_t g64 = json_object_get_int64(o);
 	struct exp_i e64 = clamp_to(want, I64MIN, I64MAX);
 	if (g64 != (int64_t)e64.val)
@@ -575,7 +575,7 @@ static void check_int_node(struct json_object *o, i128 want, const char *when)
 		i128_str(g64, b);
 		mc_violation("mutation-wrong-value", "%s: get_int64 = %s for exact value %s", when, b, a);
 	}
-	errno = 0;
+	errno = mc_errno_pre;
 	uint64_t gu = json_object_get_uint64(o);
 	struct exp_i eu = clamp_to(want, 0, U64MAX);
 	if ((i128)gu != eu.val)
